@@ -97,6 +97,11 @@ def check(R, F):
         R.require(twice is None, 'one-insert', Z + 'load_impl|at-most-one-insert', li.where(), 'at most one insert per iteration', 'two inserts can happen in one iteration: %s' % (paths.fmt_path(li, twice) if twice else ''))
         for b, t in ins:
             tgt = paths.show_operand(li, t['args'][0])
+            a0 = t['args'][0]
+            base = li.canon({'l': a0['pl']['l'], 'p': a0['pl']['p'] + ['deref'], 'ty': ''}) if is_place(a0) else None
+            sd0 = li.single_def(base['l']) if base is not None and not base['p'] else None
+            if sd0 and sd0[2] == 'call' and callee_name(sd0[3]).endswith('HashMapTreeCatalog::<Z, M>::new'):
+                tgt = 'HashMapTreeCatalog::new()'
             R.require(tgt == 'HashMapTreeCatalog::new()', 'one-insert', Z + 'load_impl|insert-into-new-catalog#%d' % (sorted(ib).index(b)), li.where(b), 'inserts into the new catalog', 'insert target is %s' % tgt)
         # the function returns the new catalog
     R.floor('one-insert', 5)
